@@ -40,6 +40,15 @@ def subsetFrom : Nat → List Bool → List Int
 
 def subsetVector (valids : List Bool) : List Int := subsetFrom 0 valids
 
+/-- get_subset_vector on NUMERIC selection flags, as the loop reads them: `valids[ii] == 0` leaves -1,
+    every other value (1 for the library's own 0/1 integer metrics such as `is_good`) takes the next
+    subset index -/
+def subsetFromFlags : Nat → List Int → List Int
+  | _, [] => []
+  | c, x :: t => if x = 0 then -1 :: subsetFromFlags c t else (c : Int) :: subsetFromFlags (c + 1) t
+
+def subsetVectorFlags (flags : List Int) : List Int := subsetFromFlags 0 flags
+
 /-- `np.where(v > -1)[0]`, positions counted from `off` -/
 def selectedFrom : Nat → List Int → List Nat
   | _, [] => []
@@ -229,7 +238,7 @@ def joinW (l : List String) : String := " ".intercalate l
 
 def optVals (v : List Rat) : Vals := v.map some
 
-/-- MAPS | cv | valids | vals per cycle | vals per subset cycle | vals per chain
+/-- MAPS [flags=int] | cv | valids | vals per cycle | vals per subset cycle | vals per chain
     answers every map on every index 0..size (one past the end included) and the six
     projections. -/
 def handle (o : Op) : Option String :=
@@ -238,11 +247,14 @@ def handle (o : Op) : Option String :=
       let some cvr := o.vec? 0 | return "bad-op"
       let some cv := toInts? cvr | return "bad-op"
       let some vr := o.vec? 1 | return "bad-op"
-      let some valids := toBools? vr | return "bad-op"
+      -- `flags=int`: the selection is a vector of integer flags (0 = unselected), read by `subsetVectorFlags`
+      let some sv := (match o.str? "flags" with
+        | none => (toBools? vr).map subsetVector
+        | some "int" => (toInts? vr).map subsetVectorFlags
+        | some _ => none) | return "bad-op"
       let some vc := o.vec? 2 | return "bad-op"
       let some vs := o.vec? 3 | return "bad-op"
       let some vh := o.vec? 4 | return "bad-op"
-      let sv := subsetVector valids
       let ch := chainVector sv
       let n := cv.length
       let K := sv.length
